@@ -358,4 +358,8 @@ def run(ctx, rep):
                         "qualified names of built-ins other than ParcelFileDescriptor (not stated)"]
     import common_g
     rep.floor("IN", "grammar actions feeding this rule", common_g.emit_inputs(ctx, rep, "C05"), 5)
+    import loopstate
+    loopstate.rule(ctx, rep, "C05", ['validation::resolve_types', 'validation::resolve_type'])
+    import pipeline
+    pipeline.rule(ctx, rep, "C05", ['resolve_types'])
     rep.assumptions += ["TB-1 rustc MIR", "TB-4 tabulator", "TB-3 HashMap/HashSet/Iterator semantics: the searches over imports / forward declarations are oracles whose predicates are not analysed"]
